@@ -174,7 +174,7 @@ def run(ctx, rep):
                 want = {"BACK": "runner.ex.available_to_back", "LAY": "runner.ex.available_to_lay"}.get(side)
                 rep.check(utext(c.args[3]) == want and utext(c.args[1]) == "price" and utext(c.args[2]) == "size", "R1",
                           key(pl, c, "%s order matched against its own side of the book at its limit" % side), pl, c)
-    rep.floor("R1", "crossing-match calls in place()", n_calls, 6)
+    rep.floor("R1", "crossing-match calls in place()", n_calls, 2)
     pr = [s for s in walk_nodes(pl.node.body, ast.Assign) if utext(s.targets[0]) == "price"]
     rep.check(len(pr) == 1 and utext(pr[0].value) == "self.order.order_type.price", "R1",
               key(pl, None, "`price` is the order's limit"), pl)
